@@ -19,6 +19,15 @@ queue operation or a `Thread.join`.  Time-outs (WAIT = 120 s per acknowledgement
 a time-out raises `HarnessTimeout`, which ends the run with exit 2 (harness problem) — it is never turned
 into a VIOLATION and never waited out as a pass.
 
+The property is also evaluated DIRECTLY on every observed history (`direct_oracle`, written without the Lean
+model), whether or not model and code agree: exactly-once, RUNNING until the end, truthful final status/message,
+no results while running, repeated results equal and equal to the once-converted task value (computed from the
+arguments passed when the accepted call is the first one), callback invoked with the task's progress, and
+"unknown arguments are rejected before the task starts" for BOTH ways of passing an unknown argument — an
+undeclared keyword, or positional arguments beyond the declared names + the one trailing `max_samples` — where
+a refused call must raise, must not enter the task and must leave the job WAITING; the arguments the task
+receives must be those passed (positional / keyword / preset).
+
 Named residue: the atomic steps are whole API calls and whole task steps.  Races *inside* one Python API
 call (bytecode interleavings on the shared JobStatus, e.g. a status query between `start_run()` and
 `Thread.start()` in `execute_async`) cannot be exhibited by this harness or by the model.
@@ -583,6 +592,9 @@ def direct_oracle(cfg, word, outs, final, hung):
     cb = 1 if cfg["cb"] else None
     last_get = None
     known = {k for k, _ in cfg["cmd"]} | {k for k, _ in cfg["mapping"]} | {0} | set(cfg["names"])
+    n_exec = 0               # execute calls performed so far
+    n_rejected = 0           # ... of which refused
+    route = None             # (task kwargs, mapping kwargs) the accepted call must produce, when it is decidable
     for ev, o in zip(word, outs):
         k = ev["e"]
         if o["o"] in ("disabled", "not-executed"):
@@ -591,13 +603,28 @@ def direct_oracle(cfg, word, outs, final, hung):
         if k in ("sync", "async"):
             if ev["cbkw"] and accepted is None:
                 cb = 2
-            unknown = [kk for kk, _ in ev["kw"] if kk not in known]
-            if accepted is None and unknown and o["o"] != "exc":
-                return "unknown-args-accepted", f"execute accepted the unknown keyword argument(s) {[key_name(u) for u in unknown]}"
+            n_exec += 1
+            # "unknown arguments": a keyword nobody declared, or positional arguments beyond the declared
+            # names + the ONE trailing max_samples a job takes
+            unknown = [key_name(kk) for kk, _ in ev["kw"] if kk not in known]
+            surplus = len(ev["args"]) - len(cfg["names"]) - 1
+            if accepted is None and o["o"] != "exc":
+                if unknown:
+                    return "unknown-args-accepted", f"execute accepted the unknown keyword argument(s) {unknown}"
+                if surplus > 0:
+                    return "unknown-args-accepted", (
+                        f"execute_{k} was given {len(ev['args'])} positional arguments {ev['args']} but the job declares "
+                        f"{len(cfg['names'])} positional parameter(s) {[key_name(x) for x in cfg['names']]} (+ one trailing "
+                        f"max_samples): the {surplus} surplus argument(s) were not rejected, the call was accepted"
+                        + (" and the task was started" if final["fnCalls"] else ""))
             if accepted is not None and o["o"] != "exc":
                 return "executed-twice", "a second execute call was accepted"
             if o["o"] == "accepted":
                 accepted = k
+                if n_exec == 1:
+                    route = spec_route(cfg, ev)
+            elif accepted is None:
+                n_rejected += 1
         elif k == "status":
             if in_flight:
                 if o["o"] == "exc":
@@ -614,7 +641,9 @@ def direct_oracle(cfg, word, outs, final, hung):
                 if ended == "raise" and o["msg"] != {"task": exc_text}:
                     return "final-message-wrong", f"stop_message {o['msg']} is not '<type>: <message>' of the task's exception"
             elif accepted is None and o["o"] == "status" and o["s"] != "WAITING":
-                return "status-before-run", f"status {o['s']} before any execute"
+                return "status-before-run", (f"status {o['s']} although no execute call has been accepted"
+                                             + (f" ({n_rejected} call(s) were refused with an exception: a refused call must "
+                                                "leave the job WAITING)" if n_rejected else ""))
         elif k == "cancel":
             cancel_seen = True
         elif k == "get":
@@ -629,16 +658,22 @@ def direct_oracle(cfg, word, outs, final, hung):
                     return "results-not-idempotent", f"get_results() returned {last_get} then {o['r']}"
                 last_get = o["r"]
                 if ended == "ret" and not cancel_before_end:
-                    want = expected_results(cfg, ret_value)
+                    want = expected_results(cfg, ret_value, route)
                     if want is not None and o["r"] not in want:
                         return "results-wrong", f"get_results() returned {o['r']}, expected one of {want}"
         elif k == "start":
-            pass
+            if o["o"] == "started" and route is not None and o["args"] != sorted(([a, b] for a, b in route[0].items()),
+                                                                                 key=lambda e: e[0]):
+                return "args-misrouted", (f"the task was called with {o['args']}, the arguments passed "
+                                          f"(positional {word_call(word)['args']}, keyword {word_call(word)['kw']}, preset "
+                                          f"{cfg['cmd']}) amount to {sorted([a, b] for a, b in route[0].items())}")
         elif k == "prog":
             if o["o"] == "progressed" and not cancel_seen and cb is not None:
                 expect_log.append([cb, ev["p"]])
                 if o["cb"] != cb:
                     return "callback-not-invoked", f"progress {ev['p']}/8 was not passed to the user's callback"
+                if o["p"] != ev["p"]:
+                    return "callback-progress-wrong", f"the task reported progress {ev['p']}/8, the user's callback received {o['p']}/8"
         elif k in ("ret", "raise", "propagate"):
             if o["o"] in ("finished",):
                 ended = k
@@ -648,12 +683,15 @@ def direct_oracle(cfg, word, outs, final, hung):
                 if k == "raise":
                     exc_text = [ev["cls"], ev["msg"]]
                 if accepted == "sync" and k == "ret" and not cancel_before_end:
-                    want = expected_results(cfg, ret_value)
+                    want = expected_results(cfg, ret_value, route)
                     got = o["sync"]
                     if want is not None and "val" in got and got["val"] not in want:
                         return "results-wrong", f"execute_sync returned {got['val']}, expected one of {want}"
     if final["fnCalls"] > 1:
         return "ran-twice", f"the task function was entered {final['fnCalls']} times"
+    if accepted is None and final["fnCalls"] > 0:
+        return "rejected-but-started", (f"every execute call was refused ({n_rejected} call(s) raised) but the task function "
+                                        f"was entered {final['fnCalls']} time(s)")
     if accepted is not None and ended is not None and final["fnCalls"] != 1:
         return "ran-not-once", f"the task function was entered {final['fnCalls']} times"
     log = [list(e) for e in final["cbLog"]]
@@ -662,12 +700,54 @@ def direct_oracle(cfg, word, outs, final, hung):
     return None
 
 
-def expected_results(cfg, ret):
+def expected_results(cfg, ret, route=None):
     """Admissible get_results() values after a successful run: the task's value, converted exactly once."""
     raw = norm_ret(ret)
     if not cfg["map"] or ret["t"] in ("none", "plain"):
         return [raw]
-    return None      # the converted value depends on the mapping dictionary: left to the model comparison
+    if route is None:
+        return None  # the mapping dictionary depends on earlier refused calls: left to the model comparison
+    mp = route[1]
+    if ret["t"] == "dict":
+        return [{"t": "dict", "v": {"m": norm_val(ret["v"]), "kw": norm_dict([[a, b] for a, b in mp.items()])}}]
+    out = []
+    for it, v in ret["l"]:
+        itd = {a: b for a, b in it}
+        out.append([norm_dict(it), {"m": norm_val(v), "kw": norm_dict([[a, itd.get(a, b)] for a, b in mp.items()])}])
+    return [{"t": "dlist", "l": out}]
+
+
+def word_call(word):
+    return next(e for e in word if e["e"] in ("sync", "async"))
+
+
+def spec_route(cfg, ev):
+    """What the FIRST execute call on a fresh job has to deliver, read off the documented contract of
+    `LocalJob(fn, result_mapping_function, delta_parameters, command_param_names)`, written independently of the
+    Lean model: positional arguments go to the declared names in order, one further positional argument is
+    `max_samples` of the conversion, keyword arguments fill the parameters preset to None (task first, then
+    conversion).  -> (task kwargs, conversion kwargs), or None when the call is not a plain legal one (then
+    nothing is judged from it)."""
+    names = cfg["names"]
+    args = list(ev["args"])
+    kw = {a: b for a, b in ev["kw"]}
+    cmd = {a: b for a, b in cfg["cmd"]}
+    mp = {a: b for a, b in cfg["mapping"]}
+    if ev["cbkw"] or len(args) > len(names) + 1:
+        return None
+    if len(args) > len(names):
+        mp[0] = args.pop()
+    for n_, a in zip(names, args):
+        if n_ in kw:
+            return None
+        cmd[n_] = a
+    for d in (cmd, mp):
+        for a in d:
+            if d[a] is None and a in kw:
+                d[a] = kw.pop(a)
+    if kw:
+        return None
+    return cmd, mp
 
 
 # ------------------------------------------------------------------------------------------------
@@ -690,9 +770,14 @@ def judge(chk, scn, rep=None):
         raise HarnessTimeout(f"no acknowledgement from the controlled task within {WAIT} s while executing "
                              f"{[e['e'] for e in scn['word']]} (cfg {scn['cfg']}); outputs so far {outs}")
     diff = compare(scn["word"], outs, final, rep)
-    if diff is None and not runner.hung:
-        return None
     bad = direct_oracle(scn["cfg"], scn["word"], outs, final, runner.hung)
+    if diff is None:
+        if bad is None:
+            return None
+        # code = model, yet the property evaluated directly on the observed history fails
+        return ("violation", bad[0], bad[1] + " [the Lean model agrees with the code on this history: the model "
+                "shares the behaviour, or the direct oracle reads the property differently — check both]",
+                len(scn["word"]))
     idx, why = diff if diff is not None else (len(scn["word"]), "hang")
     if bad is not None:
         sig, what = bad
@@ -714,6 +799,27 @@ def strip(scn):
 def shrink(chk, scn, sig):
     cur = copy.deepcopy(strip(scn))
     budget = 60
+
+    def same(cand):
+        try:
+            rep = trace(chk, cand)
+            if not is_closed(rep["final"]) or any(o["o"] == "disabled" for o in rep["outs"]):
+                return False        # keep the history executable as written
+            r = judge(chk, cand, rep)
+        except HarnessTimeout:
+            raise
+        except Exception:
+            return False
+        return r is not None and r[1] == sig
+
+    for i in range(1, len(cur["word"])):          # shortest prefix that still shows the same defect
+        budget -= 1
+        cand = {"cfg": cur["cfg"], "word": cur["word"][:i]}
+        if same(cand):
+            cur = strip(cand)
+            break
+        if budget <= 30:
+            break
     changed = True
     while changed and budget > 0:
         changed = False
@@ -818,21 +924,31 @@ def rand_cfg(rng):
 
 
 def rand_call(rng, cfg, mode, malformed):
+    """`malformed`: False | True (flavour drawn here) | "kw" (undeclared/duplicate keywords) | "surplus" (2..4
+    positional arguments beyond the declared names, otherwise a legal call) | "both"."""
     names = cfg["names"]
-    nargs = rng.randint(0, len(names) + (2 if malformed else 1))
+    if malformed is True:
+        malformed = rng.choice(["kw", "kw", "surplus", "surplus", "both"])
+    if malformed in ("surplus", "both"):
+        nargs = len(names) + rng.randint(2, 4)
+    else:
+        nargs = rng.randint(0, len(names) + (2 if malformed else 1))
     if not malformed and rng.random() < 0.7:
         nargs = min(nargs, len(names))
     args = [(None if rng.random() < 0.15 else rng.randint(1, 9)) for _ in range(nargs)]
     fillable = [k for k, v in cfg["cmd"] if v is None] + [k for k, v in cfg["mapping"] if v is None]
     kw_keys = [k for k in dict.fromkeys(fillable) if rng.random() < 0.6]
-    if malformed:
+    if malformed == "surplus":
+        kw_keys = [k for k in kw_keys if k not in names]      # nothing but the surplus is wrong with the call
+    elif malformed:
         kw_keys += rng.sample([1, 2, 3, 4, 5, 6, 7, 0], rng.randint(1, 2))
     elif rng.random() < 0.1:
         kw_keys += [rng.choice([6, 7])]
     kw_keys = list(dict.fromkeys(kw_keys))
     rng.shuffle(kw_keys)
     kw = [[k, (None if rng.random() < 0.1 else rng.randint(1, 9))] for k in kw_keys]
-    return call(args=args, kw=kw, cbkw=(rng.random() < (0.3 if malformed else 0.04)), e=mode)
+    pcb = 0.04 if malformed in (False, "surplus") else 0.3
+    return call(args=args, kw=kw, cbkw=(rng.random() < pcb), e=mode)
 
 
 def rand_ret(rng):
@@ -919,12 +1035,32 @@ def note_branches(chk, scn, rep):
     mode = None
     flight = False
     cancel = False
+    rejected = 0             # execute calls refused so far on the still WAITING job
+    cfg = scn["cfg"]
+    known = {k for k, _ in cfg["cmd"]} | {k for k, _ in cfg["mapping"]} | {0} | set(cfg["names"])
     for ev, o in zip(word, mouts):
         k, oo = ev["e"], o["o"]
         if oo == "disabled":
             chk.branch("disabled-skipped")
             continue
         chk.count("event", k)
+        if k in ("sync", "async") and mode is None:
+            surplus = len(ev["args"]) - len(cfg["names"]) - 1
+            unknown_kw = any(kk not in known for kk, _ in ev["kw"])
+            if surplus > 0:
+                chk.branch("surplus-positional")
+                chk.branch(f"surplus-positional-{k}")
+                chk.count("surplus-positional", min(surplus, 3))
+                if not unknown_kw and not ev["cbkw"]:
+                    chk.branch("surplus-positional-only")
+            if unknown_kw:
+                chk.branch("unknown-keyword")
+            if oo == "accepted" and rejected:
+                chk.branch("accepted-after-rejection")
+            if oo == "exc":
+                rejected += 1
+        if k == "status" and mode is None and rejected:
+            chk.branch("status-after-rejection")
         if k in ("sync", "async"):
             if oo == "accepted":
                 mode, flight = k, True
@@ -1078,6 +1214,47 @@ def plain_scenarios(chk, seen):
                 seen.sigs[("violation", sig)] = seen.sigs.get(("violation", sig), 0) + 1
 
 
+def argument_scenarios(chk, seen):
+    """"Unknown arguments are rejected before the task starts", for all ways of passing them: for sync/async x
+    0..2 declared positional names x every kind of illegal call (2/3/4 surplus positionals alone, with legal
+    keywords, with an unknown keyword; unknown keyword alone; a parameter passed twice) the history
+        execute(bad) ; status ; execute(good) ; start ; progress ; return ; status ; get_results ; get_results
+    is run: the refused call must raise, leave the job WAITING with the task not entered, and the job must still
+    run properly afterwards.  A legal control (exactly ONE extra positional = max_samples) runs the same way."""
+    n = 0
+    for mode in ("sync", "async"):
+        for nn in (0, 1, 2):
+            names = [1, 2][:nn]
+            cfg = {"names": names, "cmd": [[3, None], [4, 7]], "mapping": [[0, None], [5, None], [2, 3]],
+                   "map": True, "cb": True}
+            legal = list(range(11, 11 + nn))
+            bads = []
+            for extra in (2, 3, 4):
+                pos = legal + list(range(21, 21 + extra))
+                bads.append(call(args=pos, e=mode))
+                bads.append(call(args=pos, kw=[[3, 8]], e=mode))
+                bads.append(call(args=pos, kw=[[6, 1]], e=mode))
+            bads.append(call(args=legal, kw=[[6, 1]], e=mode))
+            bads.append(call(args=legal, kw=[[7, None], [6, 2]], e=mode))
+            if nn:
+                bads.append(call(args=legal, kw=[[1, 9]], e=mode))
+            goods = [call(args=legal, kw=[[3, 8], [5, 2]], e=mode), call(args=legal + [50], kw=[[5, 2]], e=mode)]
+            for bi, bad in enumerate(bads):
+                good = goods[bi % 2]
+                ret = RET0 if bi % 3 else {"t": "dlist", "l": [[[[5, 4]], 1], [[], 2]]}
+                where = "cb" if bi % 2 else "main"
+                word = [bad, {"e": "status", "where": where}, good, {"e": "start"}, {"e": "prog", "p": 4},
+                        {"e": "ret", "r": ret}, {"e": "status"}, {"e": "get"}, {"e": "get"}]
+                chk.branch("argument-scenario")
+                handle(chk, {"cfg": cfg, "word": copy.deepcopy(word)}, seen)
+                n += 1
+            for good in goods:               # controls: the legal calls alone
+                word = [good, {"e": "start"}, {"e": "prog", "p": 4}, {"e": "ret", "r": RET0}, {"e": "status"}, {"e": "get"}]
+                handle(chk, {"cfg": cfg, "word": copy.deepcopy(word)}, seen)
+                n += 1
+    chk.extra["argument_scenarios"] = n
+
+
 def load_corpus():
     out = []
     for p in sorted(glob.glob(os.path.join(core.VERIF, "corpus", "C18", "*.json"))):
@@ -1122,18 +1299,25 @@ def run(chk: core.Check):
     seen = Seen()
     chk.rule = ("histories = constructor configuration + model-enabled closed word over {execSync, execAsync, statusQuery, "
                 "cancel, getResults, start, progress, return, raise, propagate}; exhaustive part: all such words within "
-                "the bounds given in `bounds` for sync/async x positional/keyword/preset; random part: longer words over "
-                "random configurations, argument lists (15% malformed) and return shapes; distinct = distinct "
+                "the bounds given in `bounds` for sync/async x positional/keyword/preset; argument scenarios: every kind of "
+                "illegal call (2..4 surplus positionals, undeclared keyword, both, parameter passed twice) x 0..2 declared "
+                "names x sync/async followed by status, a legal call and a complete run; random part: longer words over "
+                "random configurations, argument lists (15% of the histories with malformed calls: undeclared keywords, "
+                "surplus positionals, or both) and return shapes; distinct = distinct "
                 "(configuration, word); non-trivial = at least one caller action performed while the task is in flight")
     chk.required_branches = ["sync", "async", "in-flight-sync", "in-flight-async", "cb-action-async",
                              "cancel-before-return", "cancel-after-return", "cancel-relayed", "callback-invoked",
                              "raise", "propagate", "rejected-args", "exec-twice-rejected", "positional", "keyword",
                              "preset", "max-samples-pop", "mapping-conversion", "results-list",
-                             "results-while-running", "plain-callback"]
+                             "results-while-running", "plain-callback",
+                             "surplus-positional", "surplus-positional-sync", "surplus-positional-async",
+                             "surplus-positional-only", "unknown-keyword", "status-after-rejection",
+                             "accepted-after-rejection", "argument-scenario"]
     for scn in load_corpus():
         chk.branch("corpus")
         handle(chk, scn, seen)
     plain_scenarios(chk, seen)
+    argument_scenarios(chk, seen)
     # exhaustive interleavings
     # (task events incl. start and end, caller actions); the first (positional) configuration gets the
     # large bound, the two other ways of passing the argument a smaller one
